@@ -60,8 +60,22 @@ def get_ghe(cfg):
     return _GHE[key]
 
 
+def independent_g(ghe):
+    """the combined curve rebuilt from the long-time table the object holds NOW and its short-time response, on fresh objects
+    (a curve remembered inside the GHE or its GFunction cannot leak into the oracle)"""
+    from ghedesigner.gfunction import GFunction
+    from ghedesigner.ground_heat_exchangers import BaseGHE
+
+    gf = ghe.gFunction
+    fresh = GFunction(b=gf.B, d=gf.d, r_b_values=dict(gf.r_b_values), g_lts={k: list(v) for k, v in gf.g_lts.items()}, log_time=list(gf.log_time),
+                      bore_locations=gf.bore_locations)
+    g_l, rbv, _, _ = fresh.g_function_interpolation(ghe.B_spacing / float(ghe.bhe.b.H))
+    g_c = GFunction.borehole_radius_correction(list(g_l), rbv, ghe.bhe.b.r_b)
+    return BaseGHE.combine_sts_lts(list(gf.log_time), g_c, ghe.radial_numerical.lntts.tolist(), ghe.radial_numerical.g.tolist())
+
+
 def oracle_for(ghe, q_w, t_hours):
-    g, _ = ghe.grab_g_function(ghe.B_spacing / float(ghe.bhe.b.H))
+    g = independent_g(ghe)
     return SP.superposed_eft(q_w, t_hours, g, ghe.radial_numerical.t_s, ghe.bhe.soil.k, float(ghe.bhe.b.H), ghe.nbh,
                              ghe.bhe.calc_effective_borehole_resistance(), ghe.bhe.m_flow_borehole, ghe.bhe.fluid.cp, ghe.bhe.soil.ugt)
 
@@ -160,6 +174,18 @@ def run_hybrid(case, res):
             scaled = [float(v) - tg for v in ghe.hp_eft]
             if any(abs(s_ - lam * b_) > 1e-9 * max(1.0, abs(lam * b_)) for s_, b_ in zip(scaled, base)):
                 res["violations"].append(core.viol("not_linear_in_load", c1, msg=f"loads x {lam}: departures {scaled} vs {lam} x {base}"))
+            # the same object after its long-time table was replaced (as compute_g_functions does after the search): the
+            # simulation must follow the table the object holds now
+            if case.get("swap"):
+                coords = ghe.gFunction.bore_locations
+                keep = ghe.gFunction
+                ghe.gFunction = ghe_factory.table_gfunction(coords, keep.B, HEIGHTS, 0.075, curve="steep" if case["cfg"].get("curve", "base") != "steep" else "flat")
+                try:
+                    inject(ghe, q, t)
+                    ghe.simulate(method=TimestepType.HYBRID)
+                    compare(res, dict(c1, swap=True), ghe.hp_eft, oracle_for(ghe, q, t), "hybrid-after-table-swap")
+                finally:
+                    ghe.gFunction = keep
             inject(ghe, q, t)
             old = ghe.bhe.soil.ugt
             ghe.bhe.soil.ugt = old + 3.25
@@ -271,7 +297,7 @@ def main(run: core.Run, only=None):
     for k, cfg in enumerate(sel):
         cfg = dict(cfg, pipe=("single", "double_parallel", "coaxial")[k % 3], N=(1, 4, 25, 400)[k % 4])
         chunk = (seqs2[k % 7:: 7] if quick else seqs2[k % 3:: 3]) + seqs34[k % 5:: 5]
-        hyb.append({"family": "hybrid", "cfg": cfg, "seqs": chunk})
+        hyb.append({"family": "hybrid", "cfg": cfg, "seqs": chunk, "swap": k % 2 == 0})
     run.drive(hyb, family="hybrid")
     hourly = []
     blocksets = [[(0, 1, 3000.0)], [(8759, 1, -3000.0)], [(4000, 24, 5000.0)], [(0, 3, -2000.0), (4380, 1, 4000.0), (8750, 10, -1000.0)],
